@@ -71,6 +71,16 @@ NOTES = {
     "C14-s8": "first missed: a client that asks and never reads (virtual: drain() never returns; socket tier: flood without reading)",
     "C19-s7": "first missed: workflow files with other names (`gwf_pipeline.py`, `flow-1.py`) given with -f",
     "C19-s8": "C03 first missed it (C19 caught it): path objects that are not pathlib paths as a container shape in C03",
+    "C01-s9": "C01 first missed it (C06, C18 caught it): two-target CLI family with every recorded-hash combination, run, jobs succeed, status, second run",
+    "C01-s10": "first missed: modification times around the epoch (a file dated exactly 0, or before 1970)",
+    "C10-s10": "first missed: walltime/memory given as bare numbers (a reformatting that keeps the scheduler's reading of the number is accepted, one that changes it is not)",
+    "C03-s9": "detected; one earlier run ended in a harness error under load (replay), not reproducible since",
+    "C03-s10": "first missed: a working directory that is (or resolves to) the file-system root",
+    "C04-s9": "reported through the watchdog (graph building does not return on reconvergent layers)",
+    "C04-s10": "C04 first missed it (C03 caught it): NFC/NFD file names in the C04 file pool",
+    "C02-s10": "changes only what `run --dry-run` announces — that is C05's property (status/dry-run/run agree), and C05 reports it; C02 is about real runs",
+    "C05-s9": "first missed: BFS also from a project built by jobs the scheduler still remembers as completed",
+    "C06-s10": "a path-aliasing defect (C03 reports it); C06's workflows spell every file one way",
     "C07-s8": "first missed: the scheduler moves while gwf is submitting (one environment step before the k-th scheduler command of a run)",
 }
 
